@@ -11,7 +11,52 @@ SETNAME, GEN, INFO = "physical", "Gen/ProtoEnumsPhys.v", "c36_info.json"
 
 from props.protoenums_common import table_report, cs
 
-KF_KEYS = set()
+KF_IGNORE_NULLS = "C36-window-udf-ignore-nulls-dropped"
+KF_REORDER = "C36-parquet-source-sort-order-for-reorder-dropped"
+KF_UNION = "C36-union-decode-inserts-coercion-projection"
+
+COERCE_ITEM = re.compile(r"^(CAST\(\w+@\d+ AS [^@]+\) as \w+|\w+@\d+ as \w+)$")
+
+
+def strip_union_coercions(text):
+    """remove the pure cast / pass-through ProjectionExecs that sit directly under a UnionExec (and dedent their subtrees)"""
+    lines = text.split("\n")
+    out, i = [], 0
+    ind = lambda l: len(l) - len(l.lstrip(" "))
+    while i < len(lines):
+        l = lines[i]
+        m = re.match(r"^( *)ProjectionExec: expr=\[(.*)\]$", l)
+        if m and "CAST(" in m.group(2):
+            items = m.group(2).split(", ")
+            k = len(out) - 1
+            while k >= 0 and ind(out[k]) >= ind(l):
+                k -= 1
+            if k >= 0 and out[k].strip() == "UnionExec" and all(COERCE_ITEM.match(x) for x in items):
+                j = i + 1
+                while j < len(lines) and lines[j].strip() and ind(lines[j]) > ind(l):
+                    out.append(lines[j][2:])
+                    j += 1
+                i = j
+                continue
+        out.append(l)
+        i += 1
+    return "\n".join(out)
+
+
+def classify(c):
+    """known-finding class of a failing case, or None"""
+    why, plan = c.get("why") or "", c.get("plan") or ""
+    if why.startswith("results differ") and "IGNORE NULLS" in plan and "WindowAggExec" in plan:
+        return KF_IGNORE_NULLS
+    if why.startswith("displayable().indent(true) differs") and c.get("diff"):
+        f = lambda t: re.sub(r", reverse_row_groups=true", "", re.sub(r", sort_order_for_reorder=\[[^\]]*\]", "", t))
+        if all(f(a) == f(b) for a, b in c["diff"]):
+            return KF_REORDER
+    if why.startswith("displayable().indent(true) differs after the round trip:\n") and "UnionExec" in plan and not c.get("diff") and not plan.endswith("..."):
+        back = why.split("\n", 1)[1]
+        if back.rstrip("\n") != plan.rstrip("\n") and strip_union_coercions(back).rstrip("\n") == plan.rstrip("\n"):
+            return KF_UNION
+    return None
 
 
 def run(pid, tier, seed, replay):
@@ -57,7 +102,7 @@ def run(pid, tier, seed, replay):
 
     for c in ops:
         if not c["ok"]:
-            fail("operator %s: %s" % (c["name"], (c["why"] or "")[:700]), {k: c[k] for k in ("id", "name", "why", "plan", "obs", "hj", "sort")}, key=c["key"] or None)
+            fail("operator %s: %s" % (c["name"], (c["why"] or "")[:700]), {k: c[k] for k in ("id", "name", "why", "diff", "plan", "obs", "hj", "sort")}, key=c["key"] or classify(c))
         elif c["key"]:
             ck.notes.append("witness of %s no longer fails (fixed?): %s" % (c["key"], c["name"]))
         for o in c["obs"]:
@@ -68,7 +113,7 @@ def run(pid, tier, seed, replay):
     for c in plans:
         if not c["ok"]:
             fail("physical plan of `%s` [%s]: %s" % (c["sql"][:300], c["conf"], (c["why"] or "")[:700]),
-                 {k: c.get(k) for k in ("id", "sql", "conf", "why", "plan")})
+                 {k: c.get(k) for k in ("id", "sql", "conf", "why", "diff", "plan")}, key=classify(c))
     if nfail:
         ck.log("oracle failures by class: %s" % nfail)
     # ---- tie: variants exercised vs variants in the source; tags / decoded variants / option blocks agree with the model
@@ -84,7 +129,7 @@ def run(pid, tier, seed, replay):
         missing = set(t["variants"]) - vs
         if vs - set(t["variants"]):
             ck.problem("tie", "table %s: the harness exercised variants %s that the source's encode match does not have" % (tname, sorted(vs - set(t["variants"]))))
-        if missing and not (tname in ("PJoinSide",) and missing == {"None"}):
+        if missing:
             ck.problem("tie", "table %s: variants %s of the source's encode match are not exercised by the harness (new variant?)" % (tname, sorted(missing)))
     terms, tcases, seen = [], [], set()
 
